@@ -65,7 +65,7 @@ CHECKS = {
         note="as C18",
         ref="3.9, 4 C19"),
     "C20": dict(
-        technique="WithLang.tla behaviours observed in referents mode; the ObsReferents relaxation (ordered super-sequence, extras only entering/exiting manager, is_exiting iff exit in progress) decided per observation on 3.9-3.12; Trickery.tla: the mode switch at the grain of the code (lock-free check, lock acquisition, re-check + self-test under the lock), every history of 5 (thorough 7) steps of two threads replayed on real threads held at the lock by a gate; the design without the re-check must be rejected by TLC",
+        technique="WithLang.tla behaviours observed in referents mode; the ObsReferents relaxation (ordered super-sequence, extras only entering/exiting manager, is_exiting iff exit in progress) decided per observation on 3.9-3.12; Trickery.tla: the mode switch at the grain of the code (lock-free check, lock acquisition, re-check + self-test under the lock), every history of 5 (thorough 6; invariants on 7) steps of two threads replayed on real threads held at the lock by a gate; the design without the re-check must be rejected by TLC",
         text="same behaviours as C01 with set_trickery_enabled(False); the relaxed acceptance rule is the property's own statement",
         note="as C01",
         ref="3.6, 3.10, 4 C20"),
